@@ -406,6 +406,10 @@ impl Check for C20 {
         }
         // ---- (h) the ELF loader maps (e_machine, EI_DATA) to the same descriptor
         let (machine, class64, big) = e_machine(&name);
+        // the machine field names the instruction set whatever the file class: an x32 object (EM_X86_64 in an
+        // ELFCLASS32 file) holds 64-bit-mode code
+        let classes: Vec<bool> = if name == "amd64" { vec![class64, false] } else { vec![class64] };
+        for class64 in classes {
         let spec = ElfSpec {
             class64,
             big_endian: big,
@@ -430,12 +434,13 @@ impl Check for C20 {
             Ok(Ok(elf)) => {
                 let la = elf.architecture();
                 if la.name() != name || la.endian() != arch.endian() || la.word_size() != arch.word_size() || la.stack_pointer() != sp {
-                    viol(ctx, "loader_architecture_mismatch", la.name().to_string(), json!({"loader": la.name(), "endian": format!("{:?}", la.endian())}));
+                    viol(ctx, "loader_architecture_mismatch", format!("{}{}", la.name(), if class64 { "" } else { ":elfclass32" }), json!({"loader": la.name(), "endian": format!("{:?}", la.endian()), "elf_class64": class64, "e_machine": machine}));
                 } else {
-                    ctx.class(&format!("{}/loader", name));
+                    ctx.class(&format!("{}/loader{}", name, if class64 { "" } else { "/elfclass32" }));
                 }
             }
             other => viol(ctx, "loader_rejects_architecture", format!("em{}", machine), json!({"result": format!("{:?}", other.map(|r| r.map(|_| ()).map_err(|e| format!("{:?}", e))))})),
+        }
         }
         if ctx.want_sample() {
             ctx.sample(json!({"architecture": name, "observed_scalars": observed.iter().map(|(n, b)| format!("{}:{}", n, b)).collect::<Vec<_>>(),
